@@ -23,7 +23,9 @@ RULE = ("a case = (class spec, request list). Spec: up to 5 members per class in
         "non-string values x the kinds call, batch, oneway, getattr, setattr. Non-trivial: the request list contains a request "
         "for an EXISTING member that must be refused, or a served member through a non-call kind, and the class has an inherited "
         "member and a property; distinct = distinct case JSON")
-ASSUMPTIONS = ["an instance attribute shadowing a class-level member of the same name is not generated",
+ASSUMPTIONS = ["an instance attribute shadowing a class-level METHOD of the same name (plain value, unexposed function, unexposed helper object) is generated in a quarter of the "
+               "specs; for such a name only the safety half is demanded (refused, nothing runs, no effect) and it is left out of the advertised == served comparison, "
+               "because metadata describes the class while a request resolves on the instance; shadowing of properties / by generated member kinds is not generated",
                "only exposure styles with documented meaning are generated (outermost @expose on a property, @expose below @staticmethod/@classmethod, class-level expose)",
                "classes defining __getattr__/__getattribute__ and aliases (attribute holding a bound exposed method) are outside the domain",
                "privacy rule and 'exposed = decorated itself or defined in a class that was exposed' are re-implemented in this module"]
@@ -165,6 +167,18 @@ def build(spec):
         except (AttributeError, TypeError):
             pass    # e.g. a property of the same name without setter shadows it: then the attribute simply does not exist
 
+    # instance attributes that SHADOW a class-level method of the same name: what a request resolves to is the instance attribute
+    for sh in spec.get("shadows", []):
+        if sh["kind"] == "icall":
+            def val(*a, _n=sh["name"], **k):
+                log(_n, "unexposed-instance-callable", a, k)
+                return ["shadow-ran", _n]
+        elif sh["kind"] == "helper":
+            val = helper_class(sh.get("helper_exposed", False), sh.get("helper_callable", False))()
+        else:
+            val = ["instance-attr", sh["name"]]
+        obj.__dict__[sh["name"]] = val
+
     # resolved view following the MRO (sub overrides base); instance attributes are shadowed by data descriptors
     resolved = {}
     for where, members, cls_exposed in (("base", spec["base"] + [SENTINEL], spec.get("base_exposed")), ("sub", spec["sub"], spec.get("sub_exposed"))):
@@ -179,6 +193,10 @@ def build(spec):
                 if cur is not None and cur["kind"].startswith("prop"):
                     continue      # data descriptor on the class wins over the instance dict
                 resolved[m["name"]] = dict(m, where=where, class_exposed=False)
+    for sh in spec.get("shadows", []):
+        cur = resolved.get(sh["name"])
+        if cur is not None and not cur["kind"].startswith("prop"):
+            resolved[sh["name"]] = dict(sh, where="instance", class_exposed=False, shadows=cur["kind"])
     return obj, resolved
 
 
@@ -186,7 +204,7 @@ def is_exposed(m):
     """explicitly exposed: decorated itself, or defined in a class that was exposed as a whole; never for private names"""
     if my_is_private(m["name"]):
         return False
-    if m["kind"] in ("attr", "iattr", "helper"):
+    if m["kind"] in ("attr", "iattr", "helper", "icall"):
         return False
     return bool(m.get("exposed") or m["class_exposed"])
 
@@ -244,7 +262,22 @@ def spec_strategy(draw):
     sub = [m for m in sub if m["kind"] not in ("iattr", "helper") or m["name"] not in classlevel]
     if not base:
         base = [{"name": "zz_base", "kind": "method", "exposed": True, "oneway": False}]
-    return {"base": base, "sub": sub, "base_exposed": draw(st.booleans()), "sub_exposed": draw(st.booleans())}
+    spec = {"base": base, "sub": sub, "base_exposed": draw(st.booleans()), "sub_exposed": draw(st.booleans())}
+    if draw(st.integers(0, 3)) == 0:
+        # an instance attribute named like a method of the class (the advertised metadata describes the class, a request
+        # resolves on the instance): only the safety half is demanded for such names - nothing unexposed may run
+        victims = [m["name"] for m in base + sub if m["kind"] in ("method", "static", "class")]
+        if victims:
+            shadows = []
+            for n in draw(st.lists(st.sampled_from(victims), min_size=1, max_size=2, unique=True)):
+                k = draw(st.sampled_from(["icall", "icall", "iattr", "helper"]))
+                sh = {"name": n, "kind": k}
+                if k == "helper":
+                    sh["helper_exposed"] = False
+                    sh["helper_callable"] = draw(st.booleans())
+                shadows.append(sh)
+            spec["shadows"] = shadows
+    return spec
 
 
 NONSTRING = [5, None, True, 1.5, ["alpha"], {"a": 1}, b"alpha", ("alpha",)]
@@ -346,6 +379,8 @@ def run_case(case, servertype=None, keep=False):
         meta = p._pyroInvoke("get_metadata", [oid], {}, objectId="Pyro.Daemon")
         adv_methods, adv_attrs, adv_oneway = set(meta["methods"]), set(meta["attrs"]), set(meta["oneway"])
         exp_methods, exp_attrs, exp_oneway = expected_meta(resolved)
+        shadowed = {sh["name"] for sh in spec.get("shadows", [])}      # advertised per class, resolved per instance: not compared
+        adv_methods, adv_oneway, exp_methods, exp_oneway = adv_methods - shadowed, adv_oneway - shadowed, exp_methods - shadowed, exp_oneway - shadowed
         if adv_methods != exp_methods:
             viol("metadata:methods", "advertised methods %s, served methods %s" % (sorted(adv_methods), sorted(exp_methods)))
         if adv_attrs != exp_attrs:
@@ -541,12 +576,18 @@ def _resolve_only(spec):
                 if cur is not None and cur["kind"].startswith("prop"):
                     continue
                 resolved[m["name"]] = dict(m, where=where, class_exposed=False)
+    for sh in spec.get("shadows", []):
+        cur = resolved.get(sh["name"])
+        if cur is not None and not cur["kind"].startswith("prop"):
+            resolved[sh["name"]] = dict(sh, where="instance", class_exposed=False, shadows=cur["kind"])
     return resolved
 
 
 def _labels(case):
     resolved = _resolve_only(case["spec"])
     l = ["ser:" + case.get("ser", "serpent")]
+    if case["spec"].get("shadows"):
+        l.append("instance-attribute-shadows-class-method")
     for k, n in case["reqs"]:
         if type(n) is not str:
             l.append("req:nonstring")
@@ -565,7 +606,9 @@ def SHARDS(tier):
 
 @st.composite
 def sched_case(draw):
-    return {"part": "sched", "spec": draw(spec_strategy()), "threads": draw(st.sampled_from([2, 2, 3]))}
+    spec = draw(spec_strategy())
+    spec.pop("shadows", None)       # (metadata describes the class: instance attributes are not part of this part)
+    return {"part": "sched", "spec": spec, "threads": draw(st.sampled_from([2, 2, 3]))}
 
 
 def run(ctx):
